@@ -219,7 +219,11 @@ def run_shard(ctx):
     mod = sys.modules[__name__]
     n = 250 if ctx.tier == "quick" else 2000
     for i in range(n):
-        case = be.gen_ops(rnd, rnd.randint(1, 12 if ctx.tier == "quick" else 30))
+        if i % 25 == 24:
+            case = be.gen_ops(rnd, rnd.randint(40, 80), mode=rnd.choice(["dense", "fix2", "k32", "var"]))
+            ctx.count("bulk_histories")
+        else:
+            case = be.gen_ops(rnd, rnd.randint(1, 12 if ctx.tier == "quick" else 30))
         # sibling trie: same sets, other values for some keys
         ops_b = []
         for op in case["ops"]:
